@@ -23,7 +23,7 @@ RULE = ("generated scores, parts and performances x the read-only entry points o
 ASSUMPTIONS = ["deep snapshot (vmon/snapshot.py): every attribute of every object reachable from the argument, identity-preserving; "
                "empty per-class buckets created by read-only lookups are unobservable and ignored",
                "in-place operations named by the statement are not monitored"]
-MIN_HOOKS = {"snapshot-check": {"quick": 1500, "thorough": 30000}}
+MIN_HOOKS = {"snapshot-check": {"quick": 1000, "thorough": 30000}}
 MIN_NONTRIVIAL = {"quick": 300, "thorough": 5000}
 _installed = False
 MAPS = ("time_signature_map", "key_signature_map", "clef_map", "measure_map", "measure_number_map", "metrical_position_map",
@@ -136,8 +136,11 @@ def score_entries(sc, rng):
     def xml():
         return partitura.save_musicxml(sc)
 
+    midi_opts = dict(part_voice_assign_mode=rng.randrange(6), anacrusis_behavior=rng.choice(["shift", "pad_bar", "time_sig_change"]),
+                     minimum_ppq=rng.choice([0, 480]))
+
     def midi():
-        mf = partitura.save_score_midi(sc, out=None, part_voice_assign_mode=0)
+        mf = partitura.save_score_midi(sc, out=None, **midi_opts)
         return [[(m.type, m.time, getattr(m, "note", None), getattr(m, "channel", None)) for m in tr] for tr in mf.tracks]
 
     def na():
@@ -238,7 +241,7 @@ def check_iteration(ctx, cont, kind):
 
 
 def plan(tier, seed):
-    n = 16 * 5 if tier == "quick" else 16 * 120
+    n = 16 * 4 if tier == "quick" else 16 * 120
     return [["score", i] for i in range(n)] + [["perf", i] for i in range(n // 2)] + [["iter", i] for i in range(n // 4)]
 
 
@@ -280,6 +283,11 @@ def run_item(ctx, item):
             ms = [m for m in p.iter_all(S.Measure)]
             if len(ms) >= 2:
                 p.add(S.Repeat(), ms[0].start.t, ms[1].start.t)
+        if rng.random() < 0.4:
+            # configurations: musical-beat mode with user-supplied beats per signature
+            for p_ in sc.parts:
+                mb = {f"{ts.beats}/{ts.beat_type}": rng.choice([1, 2, 3, ts.beats]) for ts in p_.iter_all(S.TimeSignature) if rng.random() < 0.7}
+                p_.use_musical_beat(mb)
         nobj = n_objects(sc)
         dg = core.digest(fingerprint(sc))
         run_pair_checks(ctx, score_entries(sc, rng), rng, "score", dg, nobj)
